@@ -1907,7 +1907,7 @@ def subscript(ctx, base, idx):
                     idx = idx + n
                 else:
                     raise PyRaise(IndexError)
-            f = z3.Function(f"WORD_{n}_{abs(hash(tuple(base))) % 10 ** 8}", z3.IntSort(), PStr)
+            f = z3.Function(f"WORD_{n}_{__import__("zlib").crc32(repr(tuple(base)).encode())}", z3.IntSort(), PStr)
             return SStr([OStr(f(idx), "word", inj=("word", n, idx) if len(set(base)) == n else None)])
         if isinstance(base, str) and len(set(base)) == len(base) and len(base) > 1:
             from .seqs import Table, ZChar
